@@ -53,6 +53,8 @@ func runC15(c *core.Ctx) {
 	c.Clause("C15.10 segments are closed only when no apply request can still read them; entries are compacted away only once applied")
 	h.installCommitsWhatItKeeps("C15.10 install-commit")
 	h.whoMayCompact("C15.10b who-may-compact")
+	c.Clause("C15.11 opening the latest snapshot cannot fail on healthy storage because a newer one was published meanwhile")
+	h.snapshotOpenPinned("C15.11 open-pinned")
 }
 
 type guardSpec struct{ field, mu, reason string }
